@@ -32,7 +32,8 @@ def rename_case(rng):
         if rng.random() < 0.35:
             # a second class with the very same layout (same lines and columns) in another file
             # preferably a class that mentions the renamed name: then both files have sites at identical positions
-            mention = [x for x in units if ("'%s'" % old) in repr(x["members"]) or ('"%s"' % old) in repr(x["members"])]
+            mention = [x for x in units if x is not u and ("'%s'" % old) in repr(x["members"]) and ("'%s'" % u["name"]) in repr(x)]
+            mention = mention or [x for x in units if ("'%s'" % old) in repr(x["members"])]
             src = rng.choice(mention) if mention and rng.random() < 0.7 else rng.choice(units)
             twin = json.loads(json.dumps(src))
             twin["name"] = src["name"][:-1] + ("Z" if not src["name"].endswith("Z") else "Y")
